@@ -77,11 +77,14 @@ class Ctx:
     def obligation(self, name, ok, detail=""):
         self.obligations.append((name, bool(ok), detail))
 
-    def corr_mismatch(self, what, inp, impl=None, model=None):
+    def corr_mismatch(self, what, inp, impl=None, model=None, signature=None):
+        """`signature`: set it when the divergence is the direct effect of a defect that is listed in
+        the known-findings file (the model follows the repaired code); such mismatches are not
+        counted while that finding is open."""
         if len(self.corr) < 50:
-            self.corr.append({"obligation": what, "input": inp, "impl": impl, "model": model})
+            self.corr.append({"obligation": what, "input": inp, "impl": impl, "model": model, "signature": signature})
         else:
-            self.corr.append({"obligation": what})
+            self.corr.append({"obligation": what, "signature": signature})
 
     def spec_failure(self, signature, inp, detail=""):
         self.spec.append({"signature": signature, "input": inp, "detail": detail})
@@ -125,6 +128,7 @@ class Ctx:
             if s["signature"] in open_sigs:
                 seen_known.setdefault(s["signature"], s)
         broken = [(n, d) for (n, ok, d) in self.obligations if not ok]
+        self.corr = [c for c in self.corr if not (c.get("signature") and c["signature"] in open_sigs)]
         lines = []
         code = 0
         violations = 0
